@@ -232,6 +232,10 @@ func coldStart(o *Outcome, sc *Scenario) {
 			tg := &tgtAB{}
 			err = bcl.Unmarshal(s, tg, bcl.OptOutput(&out), bcl.OptLogger(&log))
 			parts = append(parts, fmt.Sprintf("%#v", tg), errText(err))
+			// a type with several bcl tags, bound for the first time in this process by all callers at once
+			tt := &tgtTags{}
+			err = bcl.Unmarshal([]byte("def tgt_tags \"t\" { pp = 1; qq = 2; rr = \"r\"; ss = 4; uu = true }\nbind tgt_tags -> struct\n"), tt, bcl.OptOutput(&out), bcl.OptLogger(&log))
+			parts = append(parts, fmt.Sprintf("%#v", tt), errText(err))
 			if p, err := bcl.Parse(s, "c.bcl", bcl.OptOutput(&out), bcl.OptLogger(&log)); err == nil {
 				d, _, _ := DumpProg(p)
 				lr := loadVia(d, nil, "c", true)
@@ -358,6 +362,8 @@ func c12Callers(sc *Scenario) *Outcome {
 		return c12SharedWriter(sc)
 	}
 	o := &Outcome{}
+	keepErrors(true)
+	defer keepErrors(false)
 	r := prng.New(uint64(sc.Int("oseed", 1)), "callers")
 	nc, nops := sc.Int("clients", 2), sc.Int("ops", 3)
 	env := &callerEnv{out: &demux{bufs: map[uint64]*bytes.Buffer{}}, log: &demux{bufs: map[uint64]*bytes.Buffer{}}}
@@ -370,6 +376,16 @@ func c12Callers(sc *Scenario) *Outcome {
 	env.srcs = append(env.srcs,
 		gen.LimitProgram(r, prng.Pick(r, []string{"manyconsts", "manyblocks", "hugestring", "hugeident"}), false),
 		manyLocals(r, gen.Cfg{}).Src)
+	// two programs that fail at run time in the same way at different places
+	rk := prng.Pick(r, gen.RuntimePlants)
+	for i := 0; i < 2; i++ {
+		fc := gen.DefaultCfg(r)
+		fc.Safe = true
+		fc.Stmts = r.Range(1, 6)
+		fp := gen.Generate(r, fc)
+		gen.AddPlant(r, fp, rk, fc)
+		env.srcs = append(env.srcs, fp.Src)
+	}
 	env.orderKind = prng.Pick(r, []string{"ab", "inner", "mism", "tag", "ab-slice"})
 	env.orderSrc = []byte(orderSource(r, env.orderKind))
 	// the shared program: accepted, prints, defines blocks, binds
@@ -462,6 +478,9 @@ func c12Callers(sc *Scenario) *Outcome {
 					fmt.Sprintf("caller %d call %d (%s) gave a different result when %d callers ran concurrently", c, k, opNames[cl.op], nc), sc)
 			}
 		}
+	}
+	if ch := changedError(); ch != "" {
+		o.viol("C12", "interference", "an error value returned by one call is changed by a later call", ch, sc)
 	}
 	o.Hash = h
 	o.Nontrivial = nc >= 2 && nops >= 2
